@@ -4,8 +4,21 @@ From Coq Require Import Bool List NArith ZArith Lia.
 From M Require GFmtSpec.
 From M Require ILog.
 From M Require Tie.
+From M Require DtostreLayout.
+From M Require DtostreSpec.
+From M Require FpLen.
+From M Require BufModel.
+From M Require Dtostre.
+From M Require DtostreCases1.
+From M Require DtostreCases2.
+From M Require DtostreCases3.
+From M Require DtostreSpec.
 From M Require GFmt.
 From M Require GFmtSpec.
+From M Require ILog.
+From M Require NumDecode.
+From M Require NumSyntax.
+From M Require RtFloat.
 Import ListNotations.
 
 Module T_rne_nearest. Import GFmtSpec. Local Open Scope bool_scope. Local Open Scope Z_scope.
@@ -81,4 +94,91 @@ Theorem C16_tie_float_formats :
 Proof. exact (@Tie.tie_float_formats). Qed.
 End T_tie_float_formats.
 Definition C16_tie_float_formats := @T_tie_float_formats.C16_tie_float_formats.
+
+Module T_dtostre_layout. Import DtostreLayout. Local Open Scope bool_scope. Local Open Scope Z_scope.
+Import GFmt NumDecode NumSyntax GFmtSpec ILog RtFloat Dtostre DtostreSpec DtostreCases1 DtostreCases2 DtostreCases3. Local Open Scope Z_scope.
+Local Open Scope Z_scope.
+Theorem C16_dtostre_layout :
+  forall P ds k neg,
+  1 <= P <= 15 -> length ds = Z.to_nat P -> Forall isdig ds -> (exists c, In c ds /\ c <> 48) ->
+  -400 <= k <= 400 -> layout ds k P neg = (g_text neg P ds (k - 1), false).
+Proof. exact (@DtostreLayout.dtostre_layout). Qed.
+End T_dtostre_layout.
+Definition C16_dtostre_layout := @T_dtostre_layout.C16_dtostre_layout.
+
+Module T_g_text_reads_back. Import DtostreLayout. Local Open Scope bool_scope. Local Open Scope Z_scope.
+Import GFmt NumDecode NumSyntax GFmtSpec ILog RtFloat Dtostre DtostreSpec DtostreCases1 DtostreCases2 DtostreCases3. Local Open Scope Z_scope.
+Local Open Scope Z_scope.
+Theorem C16_g_text_reads_back :
+  forall P neg ds X rest,
+  1 <= P <= 17 -> length ds = Z.to_nat P -> Forall isdigZ ds -> 0 < decZ ds ->
+  -370 <= X <= 370 -> delim rest ->
+  exists N' D', strtod_exact (bzl (g_text neg P ds X) ++ rest) = Some (neg, N', D') /\ 0 < D' /\
+                N' * valden (X - P + 1) = valnum (decZ ds) (X - P + 1) * D'.
+Proof. exact (@DtostreLayout.g_text_reads_back). Qed.
+End T_g_text_reads_back.
+Definition C16_g_text_reads_back := @T_g_text_reads_back.C16_g_text_reads_back.
+
+Module T_dtostre_reads_back. Import DtostreLayout. Local Open Scope bool_scope. Local Open Scope Z_scope.
+Import GFmt NumDecode NumSyntax GFmtSpec ILog RtFloat Dtostre DtostreSpec DtostreCases1 DtostreCases2 DtostreCases3. Local Open Scope Z_scope.
+Local Open Scope Z_scope.
+Theorem C16_dtostre_reads_back :
+  forall P ds k neg rest,
+  1 <= P <= 15 -> length ds = Z.to_nat P -> Forall isdigZ ds -> 0 < decZ ds ->
+  -369 <= k <= 371 -> delim rest ->
+  snd (layout ds k P neg) = false /\
+  exists N' D', strtod_exact (bzl (fst (layout ds k P neg)) ++ rest) = Some (neg, N', D') /\ 0 < D' /\
+                N' * valden (k - P) = valnum (decZ ds) (k - P) * D'.
+Proof. exact (@DtostreLayout.dtostre_reads_back). Qed.
+End T_dtostre_reads_back.
+Definition C16_dtostre_reads_back := @T_dtostre_reads_back.C16_dtostre_reads_back.
+
+Module T_fmt_g_is_g_text. Import DtostreSpec. Local Open Scope bool_scope. Local Open Scope Z_scope.
+Import GFmt Dtostre. Local Open Scope bool_scope. Local Open Scope Z_scope.
+Local Open Scope Z_scope.
+Theorem C16_fmt_g_is_g_text :
+  forall P0 neg n d,
+  n <> 0 ->
+  fmt_g P0 neg n d = let P := if P0 =? 0 then 1 else P0 in let '(D, X) := sig_digits P n d in g_text neg P (digits_of (Z.to_nat P) D []) X.
+Proof. exact (@DtostreSpec.fmt_g_is_g_text). Qed.
+End T_fmt_g_is_g_text.
+Definition C16_fmt_g_is_g_text := @T_fmt_g_is_g_text.C16_fmt_g_is_g_text.
+
+Module T_fmt_g_length. Import FpLen. Local Open Scope bool_scope. Local Open Scope Z_scope.
+Import GFmt BufModel. Local Open Scope Z_scope.
+Local Open Scope Z_scope.
+Theorem C16_fmt_g_length :
+  forall P neg n d,
+  1 <= P -> Z.of_nat (length (fmt_g P neg n d)) <= P + 7.
+Proof. exact (@FpLen.fmt_g_length). Qed.
+End T_fmt_g_length.
+Definition C16_fmt_g_length := @T_fmt_g_length.C16_fmt_g_length.
+
+Module T_result_double_whole. Import FpLen. Local Open Scope bool_scope. Local Open Scope Z_scope.
+Import GFmt BufModel. Local Open Scope Z_scope.
+Local Open Scope Z_scope.
+Theorem C16_result_double_whole :
+  forall bits,
+  double_to_str bits 32 = (fmt_double 15 bits, true, Z.of_nat (length (fmt_double 15 bits)), false).
+Proof. exact (@FpLen.result_double_whole). Qed.
+End T_result_double_whole.
+Definition C16_result_double_whole := @T_result_double_whole.C16_result_double_whole.
+
+Module T_result_float_whole. Import FpLen. Local Open Scope bool_scope. Local Open Scope Z_scope.
+Import GFmt BufModel. Local Open Scope Z_scope.
+Local Open Scope Z_scope.
+Theorem C16_result_float_whole :
+  forall bits,
+  float_to_str bits 32 = (fmt_float 6 bits, true, Z.of_nat (length (fmt_float 6 bits)), false).
+Proof. exact (@FpLen.result_float_whole). Qed.
+End T_result_float_whole.
+Definition C16_result_float_whole := @T_result_float_whole.C16_result_float_whole.
+
+Module T_tie_dtostre_buf. Import Tie. Local Open Scope bool_scope. Local Open Scope Z_scope.
+Local Open Scope Z_scope.
+Theorem C16_tie_dtostre_buf :
+  Generated.gen_dtostre_buf = Z.of_nat (length (fst (Dtostre.setb (repeat Dtostre.UNINIT 32) 0 0))) /\ Generated.gen_dtostre_buf = 32.
+Proof. exact (@Tie.tie_dtostre_buf). Qed.
+End T_tie_dtostre_buf.
+Definition C16_tie_dtostre_buf := @T_tie_dtostre_buf.C16_tie_dtostre_buf.
 
